@@ -45,6 +45,13 @@
 // (started by that Open in its own goroutine) is still parked before its own Open – goroutines
 // parked at the pkg/port yield points.
 //
+// Fan-out (fanout.go, oracle only): a real node.OneToManyNode with 2–3 out-ports and an action that
+// returns a fresh packet per port (sometimes nil for some ports); one branch (sampled: two) is torn
+// down – out-port, downstream in-port, downstream reader, the process's writer – at every point of
+// the schedule, also while a request is inside the action, and before the next request.  The
+// requester must get packet.Join, in port order, of dropped/echo for the torn-down branch and the
+// REAL answers of the live branches (class unaffected otherwise).
+//
 // The whole enumeration runs in a child process of the harness binary: a panic inside a node
 // goroutine kills the process and is reported with the scenario that was running.
 package c03
@@ -2142,7 +2149,7 @@ func Run(c *lib.Ctx) {
 
 	// 1. corpus: hand-written crash points (witnesses of the fixed defect)
 	for i, f := range c.CorpusFiles() {
-		if isFanCorpus(f) || isWinCorpus(f) {
+		if isFanCorpus(f) || isWinCorpus(f) || isFanOutCorpus(f) {
 			continue // run by runFanIn / runWindows
 		}
 		cc, e := parseCorpus(f, i+1)
@@ -2189,6 +2196,12 @@ func Run(c *lib.Ctx) {
 		unknownFails++
 		fails = append(fails, lib.OracleFail{Class: class, What: what, Replay: replay})
 	}, func(line string) { fmt.Fprintln(prog, line) })
+
+	// 3c. fan-out: a real OneToManyNode, one branch torn down (fanout.go; oracle only)
+	runFanOuts(c, rng, func(class, what, replay string) {
+		unknownFails++
+		fails = append(fails, lib.OracleFail{Class: class, What: what, Replay: replay})
+	}, func(line string) { fmt.Fprintln(prog, line) }, func() bool { return unknownFails >= 6 })
 
 	// 4. Send's own guard
 	fails = append(fails, stolen(c, c.Scale(40, 300))...)
